@@ -923,6 +923,9 @@ def main(rep, tier, only):
         rule_view(rep, db, cfg, lay)
     if only in (None, "IDENT"):
         rule_ident(rep, derived)
+    if only in (None, "BITS"):
+        from checks import c13_arith
+        c13_arith.rule_bits(rep, db)
     rep.explanation = (
         "The operators contain no branch on an element value, so each instantiation (int scalars, dimensions 1-4) reduces, with the "
         "fcppt::math / fcppt::array / static-loop plumbing expanded by abstract interpretation, to one path whose result is the storage "
@@ -932,4 +935,4 @@ def main(rep, tier, only):
     rep.trusted = ["clang 14 front end", "std::array / std::get / std::tuple element access", "ring axioms of the scalar type (exact integers; machine overflow excluded)"]
     rep.assumptions = ["dimension-generic code: decided for dimensions 1..4 (the property's range); larger dimensions instantiate the same templates"]
     rep.extra["not_covered"] = ["comparison operators of vector / dim / matrix (C17 LT-LEX / EQ-FORM)", "division operators (optional results)",
-                                "bit_strings", "floating-point functions (inverse, rotation_*, exponential_pade, logarithm, sqrt, normalize, length)"]
+                                "floating-point functions (inverse, rotation_*, exponential_pade, logarithm, sqrt, normalize, length)"]
